@@ -215,6 +215,9 @@ def case(ctx, i, rec):
         rec.count("rejected:" + common.exc_key(exc)[:70])
         return
     key = common.exc_key(exc)
+    if "Times must be finite" in key:
+        # numerical breakdown is keyed by where it happens, so that a new source of NaN is not absorbed
+        key += f":{method}:{kw.get('probability_space', 'default-space') if method != 'variational_gamma' else 'gamma'}"
     rec.violation("internal-error:" + key, f"{entry}({method}) on a {kind} input (scale {scale:g}, {must_reject or 'valid parameters'}) raised {key}: {str(exc)[:150]}")
 
 
